@@ -27,6 +27,8 @@ TYPES = {
     "optboxed": ("int?", "give()"),
     "optstr": ("str?", '"o"'),
     "fn": ("fn() -> int", "fn() -> int {\n\treturn 1\n}"),
+    "fn1i": ("fn(int) -> int", "fn(q: int) -> int {\n\treturn q + 1\n}"),
+    "fn1s": ("fn(str) -> int", "fn(q: str) -> int {\n\treturn q.len()\n}"),
     "obj": ("C", "C(1)"),
     "alias": ("A", "3"),
 }
@@ -170,6 +172,14 @@ CATALOGUE = {
     "byte-plus-int": ["by = 0b11", "print typeof (by + 1)", "print by + 1"],
     "map-missing-key": ["mk = map[str, int]", "print typeof mk[\"z\"]", "print mk[\"z\"]"],
     "list-of-fn": ["fa = fn() -> int {", "\treturn 1", "}", "lf: [fn() -> int...] = [fa]", "f0 = lf[0]", "print typeof f0()", "print f0()"],
+    "from-float-counter": ["from 0.0 to 2.0 step 0.5, fc {", "\tprint typeof fc", "\tprint fc", "}"],
+    "from-bigint-counter": ["from B0 to B2, bc {", "\tprint typeof bc", "\tprint bc", "}"],
+    "from-byte-counter": ["from 0b0 to 0b10, yc {", "\tprint typeof yc", "\tprint yc", "}"],
+    "from-int-float-step": ["from 0 to 2 step 0.5, sc {", "\tprint typeof sc", "\tprint sc", "}"],
+    "from-float-bound-int-start": ["from 0 to 1.5, mc {", "\tprint typeof mc", "\tprint mc", "}"],
+    "fn-value-called": ["hf = fn(g: fn(int) -> int) -> int {", "\treturn g(2)", "}", "dbl = fn(x: int) -> int {", "\treturn x * 2", "}",
+                        "print typeof hf(dbl)", "print hf(dbl)"],
+    "fixed-list-as-param": ["tk = fn(q: [int, str]) -> str {", "\treturn q[1]", "}", "const fq = [1, \"a\"]", "print typeof tk(fq)", "print tk(fq)"],
     "optional-field-nil": ["class O {", "\tf: int?", "\tconstructor(self) {", "\t\tself.f = nil", "\t}", "}", "oo = O()", "print typeof oo.f", "print oo.f"],
 }
 
@@ -177,7 +187,7 @@ CATALOGUE = {
 class C02(Check):
     id = "C02"
     level = "exploration"
-    rule = ("(a) operator table: every cell (op in 20 binary operators, 5 op-assignments, ?=, 4 unary operators) x (T1, T2) over 16 type "
+    rule = ("(a) operator table: every cell (op in 20 binary operators, 5 op-assignments, ?=, 4 unary operators) x (T1, T2) over 18 type "
             "representatives (int, bigint, float, byte, bool, str, open list, fixed-shape list, map, int? present / nil / boxed by a function, "
             "str?, function, class, alias); (b) compatibility: every (expected type, supplied type) pair x 8 typed positions (annotated "
             "initialiser, re-assignment, argument, return value, pushed list element, map value, field assignment, `or` fallback); "
@@ -231,14 +241,16 @@ class C02(Check):
             _, pos, t1, t2 = case
             ty1 = TYPES[t1][0]
             s = PRELUDE + decl("src", t2)
+            # a function-typed position is also exercised: the value is called with an argument of the expected parameter type
+            use = {"fn": "print {v}()\n", "fn1i": "print {v}(3)\n", "fn1s": "print {v}(\"abc\")\n"}.get(t1, "")
             if pos == "init":
-                return s + f"x: {ty1} = src\nprint typeof x\nprint x\n", 1
+                return s + f"x: {ty1} = src\nprint typeof x\nprint x\n" + use.format(v="x"), 1
             if pos == "reassign":
-                return s + decl("x", t1) + "x = src\nprint typeof x\nprint x\n", 1
+                return s + decl("x", t1) + "x = src\nprint typeof x\nprint x\n" + use.format(v="x"), 1
             if pos == "arg":
-                return s + f"f = fn(p: {ty1}) -> {ty1} {{\n\treturn p\n}}\nr = f(src)\nprint typeof r\nprint r\n", 1
+                return s + f"f = fn(p: {ty1}) -> {ty1} {{\n\treturn p\n}}\nr = f(src)\nprint typeof r\nprint r\n" + use.format(v="r"), 1
             if pos == "ret":
-                return s + f"f = fn() -> {ty1} {{\n\treturn src\n}}\nr = f()\nprint typeof r\nprint r\n", 1
+                return s + f"f = fn() -> {ty1} {{\n\treturn src\n}}\nr = f()\nprint typeof r\nprint r\n" + use.format(v="r"), 1
             if pos == "push":
                 return s + f"l: [{ty1}...] = []\nl.push(src)\nprint typeof l[0]\nprint l[0]\n", 1
             if pos == "mapval":
